@@ -1075,6 +1075,37 @@ func main() {
 					}
 				})
 			}
+			// signatures that are VALID for low-order public keys: for every S of the alphabet (all of
+			// [0, L) is canonical: L-1 and 2^252 have bit 252 set) and every torsion point T, R = [S]B + T;
+			// with A the identity the equation holds for T = identity whatever the hash is, for the other
+			// low-order keys it holds for the T matching k mod 8: crypto/ed25519 decides
+			jobs = append(jobs, func() {
+				if stop() {
+					return
+				}
+				cnt := counter{}
+				buf := make([]byte, 64)
+				for _, ss := range sList {
+					sv := edref.FromLE(ss)
+					if sv.Cmp(bigL) >= 0 {
+						continue
+					}
+					sb := edref.Mul(sv, edref.Base())
+					for _, t := range torsion() {
+						rr := edref.Compress(edref.Add(sb, t))
+						for _, a := range aList {
+							copy(buf, rr)
+							copy(buf[32:], ss)
+							v, out, _ := checkVerify(a, msg, buf)
+							if v != nil {
+								r.Violation("verify", verP{hx(a), hx(msg), hx(buf)}, v)
+							}
+							cnt["low-order/"+out]++
+						}
+					}
+				}
+				cnt.flush(r, func(k string) bool { return strings.Contains(k, "verify:equation:") })
+			})
 			// single-bit flips of the honest triple, and other signature lengths
 			jobs = append(jobs, func() {
 				if stop() {
